@@ -488,4 +488,3 @@ func TestRaceFreeRunning(t *testing.T) {
 		}
 	}
 }
-
